@@ -397,6 +397,17 @@ func c06Spec(g c06Case, r *rand.Rand) *scriptSpec {
 		}
 		b = append(b, tail...)
 		spec.Segments = buildSegments(ids, b, msgs(ids, 2))
+		if g.inbox == 1024 && g.maxR > 0 {
+			// messages sent during the first restart delay sit in the ring when the budget runs out: they must never be delivered
+			for _, it := range b {
+				if it.Kind == itCrash {
+					spec.LateFor = it.ID
+					break
+				}
+			}
+			spec.Late = msgs(ids, 2)
+			spec.RestartDelay = 2 * time.Millisecond
+		}
 	case "fresh":
 		// one crash per segment: the exhausting panic is in a fresh batch
 		var bodies [][]item
